@@ -331,9 +331,19 @@ def run_case(case, seg, viol, stats, sample):
 
     table0 = canon.gene(gene)["cn_configs"]
 
+    # the depth table may hold every region of the gene ("for each genic region"): entries of regions that are
+    # not copy-number regions are none of the model's business
+    rc_given = dict(rc)
+    if rng.random() < 0.3:
+        for r_ in gene.regions[0]:
+            if r_ not in rc_given:
+                rc_given[r_] = (round(rng.uniform(1.5, 2.5), 2), round(rng.uniform(1.5, 2.5), 2) if len(gene.regions) > 1 else 0.0)
+        if len(rc_given) > len(rc):
+            stats["extra_region_cases"] = stats.get("extra_region_cases", 0) + 1
+
     def call():
         # the configuration table handed in is the gene's own, exactly as aldy's test-suite calls it
-        sols = CN.solve_cn_model(gene, profile, gene.cn_configs, max_cn, dict(rc), "cbc", fusion_support=fs)
+        sols = CN.solve_cn_model(gene, profile, gene.cn_configs, max_cn, dict(rc_given), "cbc", fusion_support=fs)
         now = canon.gene(gene)["cn_configs"]
         if now != table0 and not any(v["clause"].startswith("structure stage modified") for v in viol):
             viol.append({"clause": "structure stage modified the configuration table it was given",
